@@ -550,6 +550,17 @@ def agree(F, table, own, n_nodes):
         grew = cnt == ('k', cnt0 + 1, 'int')
         same = cnt == ('k', cnt0, 'int')
         allocs = [e for e in st.effects if e[0] in ('call', 'fcall', 'new') and (e[0] == 'new' or contracts.fn_simple(e[1]) in ('allocate', 'make_node'))]
+        # the nodes that were in the tree are still where they were (re-balancing is judged by the fix-up rule, not here)
+        root_now = st.heap[fr.tree[1]].fields.get(fr.F_ROOT)
+        a_node = [('obj', oid) for oid, nm in fr.names.items() if nm == 'a']
+        if n_nodes > 0:
+            if not (isinstance(root_now, tuple) and root_now[0] == 'addr' and a_node and root_now[1] == a_node[0]):
+                p1.append(f'descent {d}: the root of the tree is {fr.nm(root_now[1]) if isinstance(root_now, tuple) and root_now[0] == "addr" else root_now} after the '
+                          'insertion, the nodes that were in the tree are no longer reachable')
+            elif n_nodes == 3:
+                kids = {fr.nm(fr.get(st, a_node[0], 'left')), fr.nm(fr.get(st, a_node[0], 'right'))}
+                if found and kids != {'b', 'c'}:
+                    p1.append(f'descent {d}: inserting an equal key relinks the children of the root ({sorted(map(str, kids))})')
         if found:
             if own:
                 if allocs:
